@@ -63,3 +63,53 @@ def gen(tier, rng):
             yield f"c06.b.cmp_vartime {na} {hx(a)} {hx(b)}"
             for c in (0, 1):
                 yield f"c06.b.select {na} {hx(a)} {hx(b)} {c}"
+
+    # ---- coverage round (emitted last, from its own PRNG stream)
+    yield from coverage_lines(tier, random.Random(rng.getrandbits(32)))
+
+
+def coverage_lines(tier, rng):
+    """num-traits style zero / one constructors and tests (Limb, Uint, Int, BoxedUint), the provided trait methods
+    (one_like, set_zero, zero_like, ConstantTimeSelect::ct_assign / ct_swap), comparisons through Odd / NonZero and
+    ConstChoice ==.  Directed: 0, 1, 2, MAX, values whose only set bits lie above limb 0 (a zero / one test must look at
+    every limb), -1 and MIN for Int, equal / lowest-limb / highest-limb differences for the wrapped comparisons (odd and
+    even right-hand sides), zero-padded equal boxed values of different precisions; both choice values."""
+    quick = tier == 'quick'
+    widths = FIXED_QUICK if quick else FIXED_THOROUGH
+    reps = 25 if quick else 300
+    for v in EDGE_WORDS + [limb_choice(rng) for _ in range(reps * 2)]:
+        yield f"c06.w.numtests {hx(v)}"
+    for p in (0, 1):
+        for q in (0, 1):
+            yield f"c06.w.choice_eq {p} {q}"
+    for n in widths:
+        m = 1 << (64 * n)
+        half = m >> 1
+        hi = 1 << (64 * (n - 1))
+        vals = [0, 1, 2, 3, m - 1, m - 2, half, half - 1, half + 1, hi, (hi + 1) % m, (hi << 63) % m, (1 << 64) % m, ((1 << 64) + 1) % m, WMAX % m]
+        vals += [value(rng, n) for _ in range(reps)]
+        for a in vals:
+            yield f"c06.u.numtests {n} {hx(a)} {hx(rng.choice([0, 1, WMAX, limb_choice(rng)]))}"
+            yield f"c06.i.numtests {n} {hx(a)}"
+        for a, b in pairs_for(rng, n, reps // 4):
+            yield f"c06.u.wrapped_cmp {n} {hx(a)} {hx(b)}"
+            yield f"c06.u.wrapped_cmp {n} {hx(a)} {hx(b | 1)}"
+            yield f"c06.u.wrapped_cmp {n} {hx(a | 1)} {hx(b | 1)}"
+    blens = list(range(1, 9)) + [16, 17, 33] if quick else list(range(1, 41))
+    for na in blens:
+        ma = 1 << (64 * na)
+        hi = 1 << (64 * (na - 1))
+        for a in [0, 1, 2, ma - 1, hi, (hi + 1) % ma, (1 << 64) % ma, ((1 << 64) + 1) % ma] + [value(rng, na) for _ in range(4 if quick else 20)]:
+            yield f"c06.b.numtests {na} {hx(a)} {hx(rng.choice([0, 1, WMAX, limb_choice(rng)]))}"
+        for a, b in pairs_for(rng, na, 1):
+            for c in (0, 1):
+                yield f"c06.b.select_default {na} {hx(a)} {hx(b)} {c}"
+        for nb in ([na, max(1, na - 1), na + 1, 1] if quick else sorted({na, max(1, na - 1), na + 1, 1} | set(blens[::8]))):
+            k = min(na, nb)
+            for a, b in pairs_for(rng, k, 1):
+                yield f"c06.b.wrapped_cmp {na} {hx(a)} {nb} {hx(b | 1)}"
+                yield f"c06.b.wrapped_cmp {na} {hx(a | 1)} {nb} {hx(b | 1)}"
+                yield f"c06.b.wrapped_cmp {na} {hx(a)} {nb} {hx(b)}"
+            a, b = value(rng, na), value(rng, nb)
+            yield f"c06.b.wrapped_cmp {na} {hx(a)} {nb} {hx(b | 1)}"
+            yield f"c06.b.wrapped_cmp {na} {hx(a | 1)} {nb} {hx(b | 1)}"
